@@ -2,6 +2,15 @@
 HOOK_COMMITS = []
 NOT_APPLICABLE = {}
 CLAIMS = {
+    "C01": dict(
+        text="spec/Pipeline.tla enumerates the configuration product (elasticity 2D/3D and heat conduction x element type x law {isotropic, transversely isotropic, orthotropic, anisotropic with rotated axes} x plane stress / plane strain x mesh kind "
+        "{unstructured, renumbered, mixed TRI3+QUAD4 / prism boundary} x affine map {identity, shear+stretch, orientation-reversing} x basis of linear fields + a combination; Euler-Bernoulli and Timoshenko beams on SEG2..SEG5 in 1D/2D/3D with "
+        "constant axial strain / constant curvature) and states the exact expectations (constant strain sym(G), measure |det A| x shoelace area x height, N = EA e, M = EI kappa). Every TLC state is replayed: integer pentagon (or its extrusion) "
+        "meshed by gmsh, mapped, optionally renumbered, field prescribed on the whole boundary by functions of position, Solve(); nodal values at interior nodes, reported strain, stress (through S sigma = eps), energy and beam internal forces are compared at 1e-9.",
+        note="Trusted: TLC (enumeration, exact strain / measure / beam forces), the compliance validated by C11 as stress oracle, gmsh meshes (vacuity guard: every mesh must have interior nodes). Quick tier: a seeded half of the product (4+3 element types), thorough: all 15.",
+        technique="TLA+ configuration/expectation model enumerated by TLC; each state replayed through the real solve pipeline",
+        design_ref="DESIGN.md 6/C01",
+    ),
     "C11": dict(
         text="spec/ElasticLaws.tla computes in exact rationals the compliance (engineering notation, global axes) of every case: isotropic, transversely isotropic, orthotropic (documented compliances in material axes) "
         "and anisotropic (given law, Voigt and Kelvin-Mandel input), rotated by exact rational frames (in-plane, about y, generic 3-D quaternion rotations, axis permutation) through the Bond strain transformation, 3D and the "
